@@ -57,6 +57,42 @@ def h_prime_unprime(ctx):
         w.oblige('prime.raises: an action (primed support) is refused', z3.BoolVal(ok))
 
 
+def h_prime_after_declare(ctx):
+    """No stale state: variables declared AFTER a first use of prime / unprime /
+    the support classifiers are primed like all others."""
+    w = ctx.w
+    aut = w.aut
+    u = w.pred('U', w.STATE)
+    prime = ctx.fn(prm.prime)
+    unprime = ctx.fn(prm.unprime)
+    ctx.call(prime, u, aut, label='prime')
+    ctx.call(unprime, ctx.call(prime, u, aut, label='prime'), aut, label='unprime')
+    for fn_ in ('vars_in_support', 'flexible_support', 'primed_support', 'rigid_support'):
+        if hasattr(prm, fn_):
+            try:
+                getattr(prm, fn_)(u, aut)
+            except Exception:
+                pass
+    # late declarations: a flexible integer, a flexible Boolean and a constant
+    aut.declare_variables(late=(-3, 0), lb='bool')
+    aut.declare_constants(lc=(0, 2))
+    cases = [('late = 0', "late' = 0"), (r'lb /\ (late < -1)', r"lb' /\ (late' < -1)"),
+             (r'(late = lc - 2) \/ ~ lb', r"(late' = lc - 2) \/ ~ lb'")]
+    for plain, primed in cases:
+        v = aut.add_expr(plain)
+        want = aut.add_expr(primed)
+        r = ctx.call(prime, v, aut, label='prime')
+        w.oblige(f'prime.post (variables declared after an earlier call of prime): prime("{plain}") == "{primed}"',
+                 w.valid_goal(w.term(r) == w.term(want)))
+        q = ctx.call(unprime, want, aut, label='unprime')
+        w.oblige(f'unprime.post (variables declared after an earlier call): unprime("{primed}") == "{plain}"',
+                 w.valid_goal(w.term(q) == w.term(v)))
+        w.canary(f'late canary: prime("{plain}") == itself', w.valid_goal(w.term(r) == w.term(v)))
+    isp = ctx.fn(prm.is_state_predicate)
+    w.oblige('is_state_predicate (late variables): a predicate over late primed variables is not a state predicate',
+             z3.BoolVal(not isp(aut.add_expr("late' = 0")) and bool(isp(aut.add_expr('late = 0')))))
+
+
 def h_replace_with(ctx):
     """`Automaton.replace_with_primed/unprimed(vrs, u)` rename only `vrs`."""
     w = ctx.w
